@@ -73,6 +73,7 @@ def plan(tier, seed):
     maps = MAPS[:5] + MAPS[6:] if tier == "quick" else MAPS
     shards = [(r, MAPS.index(m), lo) for r in ress for m in maps for lo in range(0, len(PATTERNS), 128)]
     shards.append(("empty",))
+    shards += [("big", lo) for lo in range(0, len(PATTERNS), 128)]
     return dict(
         shards=shards,
         bounds=dict(patterns=len(PATTERNS), contexts=[c[0] for c in CONTEXTS], maps=[m[0] for m in maps], resolutions=list(ress)),
@@ -102,6 +103,25 @@ def run_shard(shard, ctx):
             ctx.evaluations += 1
             if got != [[], None]:
                 e1.report(ctx, "empty-track", text, PROBE_SRC, [[[], None]], got, "note-less track: last_note_end must be absent, body=%r" % body)
+        return
+    if shard[0] == "big":
+        # tick and length MAGNITUDES: the note at a tick beyond 2^32, lengths scaled by 2^30 (fast tempo keeps times small)
+        for pat in PATTERNS[shard[1] : shard[1] + 128 : 3]:
+            ctx.node()
+            for base, scale in ((2**32 + 6, 1), (10, 2**30), (2**62, 2**40)):
+                p2 = tuple(x if (x is None or x == "open") else x * scale for x in pat)
+                sus, longest = expected_note(p2)
+                t = base
+                lanes_ = ["%d = N 7 %d" % (t, p2[1])] if p2[0] == "open" else ["%d = N %d %d" % (t, i, ln) for i, ln in enumerate(p2) if ln is not None]
+                body = ["2 = N 0 0"] + lanes_ + ["%d = N 6 9" % t]
+                text = mk(res=960, sync=["0 = TS 4", "0 = B 1000000000", "%d = B 900000000" % (t + 1)], tracks={"ExpertSingle": body})
+                expected = [[[2, 0, 0, 2, 0, True], [t, sus, longest, t + longest, 0, True]], 0]
+                got = e1.run_probe(probe, text)
+                ctx.case(text, sample=lambda: dict(body=body, expected=expected))
+                ctx.evaluations += 13
+                ctx.hist["magnitude_cases"] += 1
+                if got != expected:
+                    e1.report(ctx, "sustain", text, PROBE_SRC, [expected], got, "tick %d, lengths scaled by %d: body=%r" % (base, scale, body))
         return
     res, mi, lo = shard
     mname, mlines = MAPS[mi]
